@@ -588,11 +588,23 @@ theorem sectionOut_perm (ns : List Atom) (p : String × List Ixn) :
 
 /-! ### assembling the round trip -/
 
+def minOk (p : String × Option Split) : Bool :=
+  match p.2 with
+  | some (Split.strict n) => decide (minAtoms p.1 ≤ n)
+  | some (Split.slice n) => decide (minAtoms p.1 ≤ n)
+  | _ => decide (minAtoms p.1 ≤ 1)
+
+theorem table_minOk : ∀ p ∈ splitTable, minOk p = true := by decide
+
 theorem table_minAtoms : ∀ p ∈ splitTable,
     (match p.2 with
       | some (Split.strict n) => minAtoms p.1 ≤ n
       | some (Split.slice n) => minAtoms p.1 ≤ n
-      | _ => minAtoms p.1 ≤ 1) := by decide
+      | _ => minAtoms p.1 ≤ 1) := by
+  intro p hp
+  have := table_minOk p hp
+  unfold minOk at this
+  split <;> simp_all
 
 theorem minAtoms_impropers : minAtoms "impropers" = 1 := by decide
 
@@ -655,11 +667,20 @@ theorem flatMap_filter_nonempty {β : Type} (l : List (String × List Ixn)) (P :
   | cons p l ih =>
     by_cases he : p.2.isEmpty = true
     · by_cases hp : P p = true
-      · simp [List.filter_cons, he, hp, ih, hF p he]
-      · simp [List.filter_cons, he, hp, ih]
-    · by_cases hp : P p = true
-      · simp [List.filter_cons, he, hp, ih]
-      · simp [List.filter_cons, he, hp, ih]
+      · simp only [List.filter_cons, he, hp, Bool.not_true, Bool.false_eq_true, ↓reduceIte,
+          List.flatMap_cons, hF p he, List.nil_append]
+        exact ih
+      · simp only [List.filter_cons, he, hp, Bool.not_true, Bool.false_eq_true, ↓reduceIte]
+        exact ih
+    · have he' : p.2.isEmpty = false := by simpa using he
+      by_cases hp : P p = true
+      · simp only [List.filter_cons, he', hp, Bool.not_false, ↓reduceIte, List.flatMap_cons]
+        rw [ih]
+      · simp only [List.filter_cons, he', hp, Bool.not_false, Bool.false_eq_true, ↓reduceIte]
+        exact ih
+
+def stAfterAtoms (moltype : Tok) (nrexcl : Nat) (ns : List Atom) : RState :=
+  stAtoms moltype nrexcl (canonAtomsFrom 0 ns)
 
 theorem roundtrip (header : List String) (moltype : Tok) (m : Mol) (hwf : WF m) :
     ∃ lines b, writeItp header moltype m = .ok lines ∧ readItp lines = .ok b ∧
@@ -709,7 +730,6 @@ theorem roundtrip (header : List String) (moltype : Tok) (m : Mol) (hwf : WF m) 
       | some sp => exact ⟨sp, rfl⟩
   have hfields : ∀ a ∈ ns, a.fieldsOk = true := fun a ha => hwf.fields a (hperm.mem_iff.mp ha)
   -- the written lines
-  refine ⟨_, ?_⟩
   have hw : writeItp header moltype m = .ok (headerLines header ++
       [Line.header "moleculetype", Line.data [moltype, natTok m.nrexcl] none, Line.blank,
        Line.header "atoms"] ++ atomLinesFrom 0 ns ++ [Line.blank] ++
@@ -725,11 +745,13 @@ theorem roundtrip (header : List String) (moltype : Tok) (m : Mol) (hwf : WF m) 
     · simp at hl
     · simp only [List.mem_append, List.mem_map, List.mem_singleton] at hl
       rcases hl with ⟨t, _, rfl⟩ | rfl <;> rfl
-  have hat := read_atoms ns 0 (stAtoms moltype m.nrexcl []) rfl (by simp [stAtoms]) hfields
-  have hready : Ready ({ stAtoms moltype m.nrexcl [] with
-      atoms := (stAtoms moltype m.nrexcl []).atoms ++ canonAtomsFrom 0 ns } : RState) ns.length := by
+  have hat : readLines (stAtoms moltype m.nrexcl []) (atomLinesFrom 0 ns)
+      = .ok (stAfterAtoms moltype m.nrexcl ns) := by
+    rw [read_atoms ns 0 (stAtoms moltype m.nrexcl []) rfl (by simp [stAtoms]) hfields]
+    simp [stAtoms, stAfterAtoms]
+  have hready : Ready (stAfterAtoms moltype m.nrexcl ns) ns.length := by
     refine ⟨rfl, Or.inl ⟨rfl, ?_⟩⟩
-    simp [stAtoms, canonAtomsFrom_keys]
+    simp [stAtoms, stAfterAtoms, canonAtomsFrom_keys]
   obtain ⟨st', hread, hg, hst, hnm, hnx, hatoms, hsections⟩ :=
     read_sections ns (sortSections m.sections) _ hready hsp har hrefs
   have hall : readLines RState.init (headerLines header ++
@@ -738,23 +760,21 @@ theorem roundtrip (header : List String) (moltype : Tok) (m : Mol) (hwf : WF m) 
       (sortSections m.sections).flatMap (sectionLines ns)) = .ok st' := by
     simp only [List.append_assoc]
     rw [readLines_ok_append (readLines_skip _ _ hskip)]
-    rw [← List.append_assoc, readLines_ok_append (read_preamble moltype m.nrexcl)]
+    rw [readLines_ok_append (read_preamble moltype m.nrexcl)]
     rw [readLines_ok_append hat]
     simp only [List.singleton_append, readLines, step]
     exact hread
-  refine ⟨{ name := moltype, nrexcl := m.nrexcl, atoms := canonAtoms m, sections := st'.sections },
-    hw, ?_, rfl, rfl, rfl, ?_⟩
+  refine ⟨_, (⟨moltype, m.nrexcl, canonAtoms m, st'.sections⟩ : Block), hw, ?_, rfl, rfl, rfl, ?_⟩
   · unfold readItp
     rw [hall]
     unfold finish
     simp only [hg, ne_eq, not_true_eq_false, ↓reduceIte, hst, hnm, hnx, hatoms]
-    simp [stAtoms, canonAtoms, hns]
+    simp [stAtoms, stAfterAtoms, canonAtoms, hns]
   · intro s
-    have h0 : (Block.ixnsOf { name := moltype, nrexcl := m.nrexcl, atoms := canonAtoms m,
-        sections := st'.sections } s) = ixnsOfSecs st'.sections s := rfl
+    have h0 : (Block.ixnsOf (⟨moltype, m.nrexcl, canonAtoms m, st'.sections⟩ : Block) s)
+        = ixnsOfSecs st'.sections s := rfl
     rw [h0, hsections, ixnsOf_allOut]
-    have hinit : ixnsOfSecs ({ stAtoms moltype m.nrexcl [] with
-      atoms := (stAtoms moltype m.nrexcl []).atoms ++ canonAtomsFrom 0 ns } : RState).sections s = [] := rfl
+    have hinit : ixnsOfSecs (stAfterAtoms moltype m.nrexcl ns).sections s = [] := rfl
     rw [hinit, List.nil_append]
     unfold canonIxns
     rw [hns]
@@ -768,5 +788,732 @@ theorem roundtrip (header : List String) (moltype : Tok) (m : Mol) (hwf : WF m) 
       (fun p => p.2.map (canonIxn ns p.1)) (by intro p hp; simp [List.isEmpty_iff.mp hp])
     rw [h3] at h2
     exact h1.trans h2
+
+/-! ### gen_params after link application -/
+
+theorem citeLines_total (cmap : List (String × String)) (fmt : String → Except String String)
+    (cs : List String)
+    (hfmt : ∀ c ∈ cs, ∀ p, cmap.find? (fun q => q.1 == c) = some p → ∃ s, fmt p.2 = .ok s) :
+    ∃ out, citeLines cmap fmt cs = .ok out := by
+  induction cs with
+  | nil => exact ⟨[], rfl⟩
+  | cons c cs ih =>
+    obtain ⟨out, hout⟩ := ih (fun c' hc' => hfmt c' (by simp [hc']))
+    unfold citeLines
+    cases hf : cmap.find? (fun q => q.1 == c) with
+    | none => exact ⟨out, by simpa using hout⟩
+    | some p =>
+      obtain ⟨s, hs⟩ := hfmt c (by simp) p hf
+      exact ⟨s :: out, by simp [hs, hout, Except.map]⟩
+
+theorem genHeader_skip (argv : String) (cites : List String) :
+    ∀ l ∈ genParamsHeaderLines argv cites, isSkip l = true := by
+  intro l hl
+  unfold genParamsHeaderLines at hl
+  simp only [List.mem_append, List.mem_cons, List.mem_map, List.not_mem_nil, or_false] at hl
+  rcases hl with ((rfl | rfl | rfl) | ⟨t, _, rfl⟩) | rfl <;> rfl
+
+theorem readItp_skip_prefix (pre body : List Line) (h : ∀ l ∈ pre, isSkip l = true) :
+    readItp (pre ++ body) = readItp body := by
+  unfold readItp
+  rw [readLines_ok_append (readLines_skip _ _ h)]
+
+theorem FS.get_update_same (fs : FS) (out : String) (lines : List Line) :
+    FS.get ((out, lines) :: fs.filter (fun p => p.1 != out)) out = some lines := by
+  simp [FS.get]
+
+theorem FS.get_update_other (fs : FS) (out : String) (lines : List Line) (p : String) (hp : p ≠ out) :
+    FS.get ((out, lines) :: fs.filter (fun q => q.1 != out)) p = FS.get fs p := by
+  have hne : (out == p) = false := by simpa using fun h => hp h.symm
+  simp only [FS.get, List.find?_cons, hne]
+  congr 1
+  induction fs with
+  | nil => rfl
+  | cons q fs ih =>
+    by_cases hq : q.1 = out
+    · have h2 : (q.1 == p) = false := by rw [hq]; exact hne
+      simp [hq, List.find?_cons, ih, hne]
+    · simp only [List.filter_cons, bne_iff_ne, ne_eq, hq, not_false_eq_true, ↓reduceIte,
+        List.find?_cons]
+      split
+      · rfl
+      · exact ih
+
+/-! ### the specification-level statement: same interactions up to the section's symmetry -/
+
+theorem eraseRel_some {α : Type} (rel : α → α → Bool) (x : α) (ys ys' : List α)
+    (h : eraseRel rel x ys = some ys') : ∃ y, rel x y = true ∧ ys.Perm (y :: ys') := by
+  induction ys generalizing ys' with
+  | nil => simp [eraseRel] at h
+  | cons y ys ih =>
+    unfold eraseRel at h
+    by_cases hr : rel x y = true
+    · simp only [hr, ↓reduceIte, Option.some.injEq] at h
+      subst h
+      exact ⟨y, hr, List.Perm.refl _⟩
+    · simp only [hr, Bool.false_eq_true, ↓reduceIte] at h
+      cases he : eraseRel rel x ys with
+      | none => simp [he] at h
+      | some r =>
+        simp only [he, Option.map_some, Option.some.injEq] at h
+        subst h
+        obtain ⟨y', hy', hp⟩ := ih r he
+        exact ⟨y', hy', (hp.cons y).trans (List.Perm.swap _ _ _)⟩
+
+theorem matchUpTo_sound {α : Type} (rel : α → α → Bool) (xs ys : List α)
+    (h : matchUpTo rel xs ys = true) : SameUpTo rel xs ys := by
+  induction xs generalizing ys with
+  | nil =>
+    have : ys = [] := by simpa [matchUpTo] using h
+    subst this
+    exact ⟨[], List.Perm.refl _, AllRel.nil⟩
+  | cons x xs ih =>
+    unfold matchUpTo at h
+    cases he : eraseRel rel x ys with
+    | none => simp [he] at h
+    | some ys' =>
+      simp only [he] at h
+      obtain ⟨y, hy, hp⟩ := eraseRel_some rel x ys ys' he
+      obtain ⟨l, hl, hall⟩ := ih ys' h
+      exact ⟨y :: l, hp.trans (hl.cons y), AllRel.cons hy hall⟩
+
+theorem allRel_map {α β : Type} (r : β → β → Prop) (f g : α → β) (l : List α)
+    (h : ∀ a ∈ l, r (f a) (g a)) : AllRel r (l.map f) (l.map g) := by
+  induction l with
+  | nil => exact AllRel.nil
+  | cons a l ih => exact AllRel.cons (h a (by simp)) (ih (fun b hb => h b (by simp [hb])))
+
+theorem allRel_append {α β : Type} (r : α → β → Prop) {a₁ a₂ : List α} {b₁ b₂ : List β}
+    (h₁ : AllRel r a₁ b₁) (h₂ : AllRel r a₂ b₂) : AllRel r (a₁ ++ a₂) (b₁ ++ b₂) := by
+  induction h₁ with
+  | nil => exact h₂
+  | cons hr _ ih => exact AllRel.cons hr ih
+
+theorem allRel_flatMap {α β : Type} (r : β → β → Prop) (f g : α → List β) (l : List α)
+    (h : ∀ a ∈ l, AllRel r (f a) (g a)) : AllRel r (l.flatMap f) (l.flatMap g) := by
+  induction l with
+  | nil => exact AllRel.nil
+  | cons a l ih =>
+    simp only [List.flatMap_cons]
+    exact allRel_append r (h a (by simp)) (ih (fun b hb => h b (by simp [hb])))
+
+theorem sortAtoms_cases (name : String) (l : List Nat) (h : isUnordered name = false) :
+    sortAtoms name l = l ∨ sortAtoms name l = l.reverse := by
+  unfold sortAtoms
+  simp only [h, Bool.false_eq_true, ↓reduceIte]
+  split
+  · split
+    · exact Or.inl rfl
+    · exact Or.inr rfl
+  · split
+    · split
+      · exact Or.inl rfl
+      · exact Or.inr rfl
+    · exact Or.inl rfl
+
+theorem map_succ_pred (l : List Nat) : (l.map (· + 1)).map (· - 1) = l := by
+  induction l with
+  | nil => rfl
+  | cons a l ih => simp [ih]
+
+def symOk (p : String × Option Split) : Bool :=
+  match p.2 with
+  | some sp => sp == Split.skip ||
+    (match symmetryOf p.1 with
+      | .unordered => isUnordered p.1
+      | .reversal => !isUnordered p.1
+      | .positional => p.1 == "angle_restraints_z" ||
+          (!isUnordered p.1 && !isAngleLike p.1 && !isDihedralLike p.1))
+  | none => true
+
+theorem table_symOk : ∀ p ∈ splitTable, symOk p = true := by decide
+theorem impropers_plain : isUnordered "impropers" = false ∧ isAngleLike "impropers" = false ∧
+    isDihedralLike "impropers" = false := by decide
+theorem symmetry_dihedrals : symmetryOf "dihedrals" = Symmetry.reversal := by decide
+
+/-- the writer's re-ordering of the atoms of one interaction is a symmetry of its section (for
+`angle_restraints_z` only when it leaves the atoms alone) -/
+theorem sameIxn_plain_canon (ns : List Atom) (name : String) (x : Ixn) (sp : Split)
+    (hsp : lookupSplit (headerName name) = some (some sp)) (hskip : sp ≠ Split.skip)
+    (hz : name = "angle_restraints_z" →
+      sortAtoms name (x.atoms.map (fun k => posOf ns k + 1)) = x.atoms.map (fun k => posOf ns k + 1)) :
+    sameIxn (headerName name) (plainIxn ns x) (canonIxn ns name x) = true := by
+  have hL : (x.atoms.map (fun k => posOf ns k + 1)) = (x.atoms.map (posOf ns)).map (· + 1) := by
+    simp [List.map_map]
+  have hatoms : sameAtoms (headerName name) (x.atoms.map (posOf ns))
+      ((sortAtoms name (x.atoms.map (fun k => posOf ns k + 1))).map (· - 1)) = true := by
+    by_cases hi : name = "impropers"
+    · -- written under `dihedrals`, never re-ordered
+      subst hi
+      have : sortAtoms "impropers" (x.atoms.map (fun k => posOf ns k + 1))
+          = x.atoms.map (fun k => posOf ns k + 1) := by
+        unfold sortAtoms
+        simp [impropers_plain.1, impropers_plain.2.1, impropers_plain.2.2]
+      rw [this, hL, map_succ_pred]
+      have hh : headerName "impropers" = "dihedrals" := by decide
+      simp [sameAtoms, hh, symmetry_dihedrals]
+    · have hh : headerName name = name := by simp [headerName, hi]
+      rw [hh] at hsp ⊢
+      have hok := table_symOk _ (lookupSplit_mem hsp)
+      unfold symOk at hok
+      have hskip' : (sp == Split.skip) = false := by simpa using hskip
+      simp only [hskip', Bool.false_or] at hok
+      unfold sameAtoms
+      cases hsym : symmetryOf name with
+      | unordered =>
+        simp only [hsym] at hok ⊢
+        rw [List.isPerm_iff]
+        have hs : sortAtoms name (x.atoms.map (fun k => posOf ns k + 1))
+            = (x.atoms.map (fun k => posOf ns k + 1)).mergeSort (fun a b => a ≤ b) := by
+          unfold sortAtoms; simp [hok]
+        rw [hs]
+        have := (List.mergeSort_perm (x.atoms.map (fun k => posOf ns k + 1)) (fun a b => decide (a ≤ b))).map (· - 1)
+        rw [hL, map_succ_pred] at this
+        rw [hL]
+        exact this.symm
+      | reversal =>
+        simp only [hsym, Bool.not_eq_true'] at hok ⊢
+        rcases sortAtoms_cases name (x.atoms.map (fun k => posOf ns k + 1)) hok with h | h
+        · rw [h, hL, map_succ_pred]; simp
+        · rw [h, hL, ← List.map_reverse, ← List.map_reverse, map_succ_pred]; simp
+      | positional =>
+        simp only [hsym] at hok ⊢
+        have hid : sortAtoms name (x.atoms.map (fun k => posOf ns k + 1))
+            = x.atoms.map (fun k => posOf ns k + 1) := by
+          by_cases hzz : name = "angle_restraints_z"
+          · exact hz hzz
+          · have hzz' : (name == "angle_restraints_z") = false := by simpa using hzz
+            simp only [hzz', Bool.false_or, Bool.and_eq_true, Bool.not_eq_true'] at hok
+            unfold sortAtoms
+            simp [hok.1.1, hok.1.2, hok.2]
+        rw [hid, hL, map_succ_pred]
+        simp
+  simp [sameIxn, plainIxn, canonIxn, writtenAtoms, hatoms]
+
+theorem arityOk_split (name : String) (x : Ixn) (h : arityOk name x = true) :
+    ∃ sp, lookupSplit (headerName name) = some (some sp) ∧ sp ≠ Split.skip := by
+  unfold arityOk at h
+  cases hl : lookupSplit (headerName name) with
+  | none => simp [hl] at h
+  | some osp =>
+    cases osp with
+    | none => simp [hl] at h
+    | some sp =>
+      refine ⟨sp, rfl, ?_⟩
+      intro hs; subst hs; simp [hl] at h
+
+theorem plain_canon_allRel (m : Mol) (hwf : WF m) (hz : zOrdered m = true) (s : String) :
+    AllRel (fun x y => sameIxn s x y = true) (plainIxns m s) (canonIxns m s) := by
+  unfold plainIxns canonIxns
+  apply allRel_flatMap
+  intro p hp
+  obtain ⟨hpm, hps⟩ := List.mem_filter.mp hp
+  have hps' : headerName p.1 = s := by simpa using hps
+  apply allRel_map
+  intro x hx
+  obtain ⟨sp, hsp, hskip⟩ := arityOk_split p.1 x (hwf.arity p hpm x hx)
+  rw [← hps']
+  apply sameIxn_plain_canon (sortedNodes m) p.1 x sp hsp hskip
+  intro hname
+  unfold zOrdered at hz
+  rw [List.all_eq_true] at hz
+  have := hz p hpm
+  simp only [hname, bne_self_eq_false, Bool.false_or, List.all_eq_true, beq_iff_eq] at this
+  rw [hname]
+  exact this x hx
+
+theorem roundtrip_spec (header : List String) (moltype : Tok) (m : Mol) (hwf : WF m)
+    (hz : zOrdered m = true) :
+    ∃ lines b, writeItp header moltype m = .ok lines ∧ readItp lines = .ok b ∧
+      b.atoms = canonAtoms m ∧ ∀ s, SameUpTo (sameIxn s) (plainIxns m s) (b.ixnsOf s) := by
+  obtain ⟨lines, b, hw, hr, _, _, hat, hix⟩ := roundtrip header moltype m hwf
+  exact ⟨lines, b, hw, hr, hat, fun s => ⟨canonIxns m s, hix s, plain_canon_allRel m hwf hz s⟩⟩
+
+/-! ### the path through polyply's TOPDirector -/
+
+def stripLine : Line → Option Line
+  | .comment _ => none
+  | .blank => none
+  | .data t _ => some (.data t none)
+  | l => some l
+
+def strip (ls : List Line) : List Line := ls.filterMap stripLine
+
+theorem readLines_strip (st : RState) (ls : List Line) : readLines st (strip ls) = readLines st ls := by
+  induction ls generalizing st with
+  | nil => rfl
+  | cons l ls ih =>
+    cases l with
+    | comment t => simp [strip, stripLine, readLines, step]; exact ih st
+    | blank => simp [strip, stripLine, readLines, step]; exact ih st
+    | header n =>
+      simp only [strip, List.filterMap_cons, stripLine, readLines]
+      cases step st (Line.header n) with
+      | error e => rfl
+      | ok st' => exact ih st'
+    | pragma t =>
+      simp only [strip, List.filterMap_cons, stripLine, readLines]
+      cases step st (Line.pragma t) with
+      | error e => rfl
+      | ok st' => exact ih st'
+    | bad t =>
+      simp only [strip, List.filterMap_cons, stripLine, readLines]
+      cases step st (Line.bad t) with
+      | error e => rfl
+      | ok st' => exact ih st'
+    | data t c =>
+      simp only [strip, List.filterMap_cons, stripLine, readLines]
+      have : step st (Line.data t none) = step st (Line.data t c) := rfl
+      rw [this]
+      cases step st (Line.data t c) with
+      | error e => rfl
+      | ok st' => exact ih st'
+
+/-- lines the topology reader passes on unchanged: no misformatted header, every section header is
+`moleculetype` or one that `TOPDirector` registers -/
+def lineTopOk : Line → Bool
+  | .bad _ => false
+  | .header n => n == "moleculetype" || topSections.contains n
+  | _ => true
+
+theorem topCollect_inside (sec : Sec) (ls : List Line) (hsec : sec ≠ .lost)
+    (h : ∀ l ∈ ls, lineTopOk l = true) : topCollect true sec ls = .ok (strip ls) := by
+  induction ls generalizing sec with
+  | nil => rfl
+  | cons l ls ih =>
+    have hl := h l (by simp)
+    have hrest : ∀ l' ∈ ls, lineTopOk l' = true := fun l' hl' => h l' (by simp [hl'])
+    cases l with
+    | comment t => simp only [topCollect, strip, List.filterMap_cons, stripLine]; exact ih sec hsec hrest
+    | blank => simp only [topCollect, strip, List.filterMap_cons, stripLine]; exact ih sec hsec hrest
+    | bad t => simp [lineTopOk] at hl
+    | pragma t =>
+      simp only [topCollect, ↓reduceIte, strip, List.filterMap_cons, stripLine]
+      rw [ih sec hsec hrest]; rfl
+    | data t c =>
+      simp only [topCollect, ↓reduceIte, hsec, strip, List.filterMap_cons, stripLine]
+      rw [ih sec hsec hrest]; rfl
+    | header n =>
+      simp only [topCollect, strip, List.filterMap_cons, stripLine]
+      by_cases hn : n = "moleculetype"
+      · simp only [hn, ↓reduceIte]
+        rw [ih .mt (by simp) hrest]; rfl
+      · have hc : topSections.contains n = true := by
+          simpa [lineTopOk, hn] using hl
+        simp only [hn, ↓reduceIte, hc]
+        rw [ih (.sub n) (by simp) hrest]; rfl
+
+theorem topCollect_file (pre rest : List Line) (hpre : ∀ l ∈ pre, isSkip l = true)
+    (h : ∀ l ∈ rest, lineTopOk l = true) :
+    topCollect false .top (pre ++ Line.header "moleculetype" :: rest)
+      = .ok (strip (pre ++ Line.header "moleculetype" :: rest)) := by
+  induction pre with
+  | nil =>
+    simp only [List.nil_append, topCollect, ↓reduceIte, strip, List.filterMap_cons, stripLine]
+    rw [topCollect_inside .mt rest (by simp) h]; rfl
+  | cons l pre ih =>
+    have hl := hpre l (by simp)
+    have hrec := ih (fun l' hl' => hpre l' (by simp [hl']))
+    cases l with
+    | comment t =>
+      simp only [List.cons_append, topCollect, strip, List.filterMap_cons, stripLine]
+      exact hrec
+    | blank =>
+      simp only [List.cons_append, topCollect, strip, List.filterMap_cons, stripLine]
+      exact hrec
+    | header n => simp [isSkip] at hl
+    | pragma t => simp [isSkip] at hl
+    | data t c => simp [isSkip] at hl
+    | bad t => simp [isSkip] at hl
+
+theorem readViaTop_eq (pre rest : List Line) (hpre : ∀ l ∈ pre, isSkip l = true)
+    (h : ∀ l ∈ rest, lineTopOk l = true) :
+    readViaTop (pre ++ Line.header "moleculetype" :: rest)
+      = readItp (pre ++ Line.header "moleculetype" :: rest) := by
+  unfold readViaTop
+  rw [topCollect_file pre rest hpre h]
+  simp only
+  unfold readItp
+  rw [readLines_strip]
+
+theorem groupLines_topOk (ns : List Atom) (name : String) (k : GKey) (g : List Ixn) :
+    ∀ l ∈ groupLines ns name k g, lineTopOk l = true := by
+  intro l hl
+  unfold groupLines at hl
+  simp only [List.mem_append, List.mem_map, List.mem_singleton] at hl
+  rcases hl with (((hl | hl) | ⟨x, _, rfl⟩) | hl) | rfl
+  · cases hc : k.cond with
+    | none => simp [hc] at hl
+    | some tc => obtain ⟨t, c⟩ := tc; simp [hc] at hl; subst hl; rfl
+  · split at hl
+    · simp at hl
+    · simp at hl; subst hl; rfl
+  · rfl
+  · cases hc : k.cond with
+    | none => simp [hc] at hl
+    | some tc => simp [hc] at hl; subst hl; rfl
+  · rfl
+
+theorem atomLines_topOk (i : Nat) (ns : List Atom) : ∀ l ∈ atomLinesFrom i ns, lineTopOk l = true := by
+  induction ns generalizing i with
+  | nil => simp [atomLinesFrom]
+  | cons a ns ih =>
+    intro l hl
+    simp only [atomLinesFrom, List.mem_cons] at hl
+    rcases hl with rfl | hl
+    · rfl
+    · exact ih (i + 1) l hl
+
+theorem headerLines_skip (header : List String) : ∀ l ∈ headerLines header, isSkip l = true := by
+  intro l hl
+  unfold headerLines at hl
+  split at hl
+  · simp at hl
+  · simp only [List.mem_append, List.mem_map, List.mem_singleton] at hl
+    rcases hl with ⟨t, _, rfl⟩ | rfl <;> rfl
+
+theorem writeItp_shape (header : List String) (moltype : Tok) (m : Mol) (hwf : WF m) (lines : List Line)
+    (hw : writeItp header moltype m = .ok lines) :
+    ∃ rest, lines = headerLines header ++ Line.header "moleculetype" :: rest ∧
+      ∀ l ∈ rest, lineTopOk l = true := by
+  have hsecs : (sortSections m.sections).Perm (m.sections.filter (fun s => !s.2.isEmpty)) :=
+    List.mergeSort_perm _ _
+  have hhead : ∀ s ∈ sortSections m.sections, topSections.contains (headerName s.1) = true := by
+    intro s hs
+    have hmem := List.mem_filter.mp (hsecs.mem_iff.mp hs)
+    obtain ⟨x, hx⟩ : ∃ x, x ∈ s.2 := by
+      cases hl : s.2 with
+      | nil => simp [hl] at hmem
+      | cons x l => exact ⟨x, by simp⟩
+    obtain ⟨sp, hsp, hskip⟩ := arityOk_split s.1 x (hwf.arity s hmem.1 x hx)
+    have := table_top _ (lookupSplit_mem hsp) ⟨sp, rfl, hskip⟩
+    simpa using this
+  unfold writeItp at hw
+  simp only at hw
+  split at hw
+  · cases hw
+  · split at hw
+    · cases hw
+    · simp only [Except.ok.injEq] at hw
+      subst hw
+      refine ⟨_, by simp only [List.append_assoc, List.cons_append, List.nil_append]; rfl, ?_⟩
+      intro l hl
+      simp only [List.mem_cons, List.mem_append, List.mem_flatMap, List.not_mem_nil, or_false] at hl
+      rcases hl with rfl | rfl | rfl | hl | rfl | ⟨s, hs, hl⟩
+      · rfl
+      · rfl
+      · rfl
+      · exact atomLines_topOk 0 _ l hl
+      · rfl
+      · unfold sectionLines at hl
+        simp only [List.mem_cons, List.mem_flatMap] at hl
+        rcases hl with rfl | ⟨kg, _, hl⟩
+        · have := hhead s hs
+          simp only [lineTopOk, Bool.or_eq_true, beq_iff_eq]
+          exact Or.inr this
+        · exact groupLines_topOk _ _ _ _ l hl
+
+theorem writeItp_top (header : List String) (moltype : Tok) (m : Mol) (hwf : WF m) (lines : List Line)
+    (hw : writeItp header moltype m = .ok lines) : readViaTop lines = readItp lines := by
+  obtain ⟨rest, hl, hrest⟩ := writeItp_shape header moltype m hwf lines hw
+  rw [hl]
+  exact readViaTop_eq _ _ (headerLines_skip header) hrest
+
+theorem writeItp_nohdr_shape (moltype : Tok) (m : Mol) (hwf : WF m) (lines : List Line)
+    (hw : writeItp [] moltype m = .ok lines) :
+    ∃ rest, lines = Line.header "moleculetype" :: rest ∧ ∀ l ∈ rest, lineTopOk l = true := by
+  obtain ⟨rest, hl, hrest⟩ := writeItp_shape [] moltype m hwf lines hw
+  exact ⟨rest, by simpa [headerLines] using hl, hrest⟩
+
+/-! ### residue graph -/
+
+theorem mem_firstOcc {α : Type} [DecidableEq α] (l : List α) (a : α) : a ∈ firstOcc l ↔ a ∈ l := by
+  induction l with
+  | nil => simp [firstOcc]
+  | cons b l ih =>
+    simp only [firstOcc, List.mem_cons, List.mem_filter, decide_eq_true_eq, ih]
+    constructor
+    · rintro (h | ⟨h, _⟩)
+      · exact Or.inl h
+      · exact Or.inr h
+    · rintro (h | h)
+      · exact Or.inl h
+      · by_cases hab : a = b
+        · exact Or.inl hab
+        · exact Or.inr ⟨h, hab⟩
+
+theorem firstOcc_nodup {α : Type} [DecidableEq α] (l : List α) : (firstOcc l).Nodup := by
+  induction l with
+  | nil => simp [firstOcc]
+  | cons b l ih =>
+    simp only [firstOcc, List.nodup_cons, List.mem_filter, decide_eq_true_eq]
+    exact ⟨fun h => h.2 rfl, ih.filter _⟩
+
+theorem nodesFrom_pairs (i : Nat) (rs : List (Nat × Tok)) :
+    (nodesFrom i rs).map (fun n => (n.resid, n.resname)) = rs := by
+  induction rs generalizing i with
+  | nil => rfl
+  | cons r rs ih => simp [nodesFrom, ih]
+
+theorem nodesFrom_resids (i : Nat) (rs : List (Nat × Tok)) :
+    (nodesFrom i rs).map (·.resid) = rs.map (·.1) := by
+  induction rs generalizing i with
+  | nil => rfl
+  | cons r rs ih => simp [nodesFrom, ih]
+
+theorem mem_nodesFrom (i : Nat) (rs : List (Nat × Tok)) (hnd : rs.Nodup) (n : RGNode) :
+    n ∈ nodesFrom i rs ↔
+      (n.resid, n.resname) ∈ rs ∧ n.idx = i + posWhere (fun r => r == (n.resid, n.resname)) rs := by
+  induction rs generalizing i with
+  | nil => simp [nodesFrom]
+  | cons r rs ih =>
+    obtain ⟨hr, hnd'⟩ := List.nodup_cons.mp hnd
+    simp only [nodesFrom, List.mem_cons, posWhere]
+    constructor
+    · rintro (h | h)
+      · subst h; simp
+      · obtain ⟨hm, hi⟩ := (ih (i + 1) hnd').mp h
+        have hne : ¬ r = (n.resid, n.resname) := fun e => hr (e ▸ hm)
+        refine ⟨Or.inr hm, ?_⟩
+        simp only [beq_iff_eq, hne, ↓reduceIte]
+        omega
+    · rintro ⟨hm, hi⟩
+      by_cases he : r = (n.resid, n.resname)
+      · left
+        simp only [beq_iff_eq, he, ↓reduceIte, Nat.add_zero] at hi
+        cases n
+        simp_all
+      · right
+        have hm' : (n.resid, n.resname) ∈ rs := by
+          rcases hm with h | h
+          · exact absurd h.symm he
+          · exact h
+        simp only [beq_iff_eq, he, ↓reduceIte] at hi
+        exact (ih (i + 1) hnd').mpr ⟨hm', by omega⟩
+
+theorem fst_inj_of_nodup {l : List (Nat × Tok)} (h : (l.map (·.1)).Nodup) {a b : Nat × Tok}
+    (ha : a ∈ l) (hb : b ∈ l) (hab : a.1 = b.1) : a = b := by
+  induction l with
+  | nil => cases ha
+  | cons c l ih =>
+    simp only [List.map_cons, List.nodup_cons, List.mem_map, not_exists, not_and] at h
+    simp only [List.mem_cons] at ha hb
+    rcases ha with rfl | ha <;> rcases hb with rfl | hb
+    · rfl
+    · exact absurd hab.symm (h.1 b hb)
+    · exact absurd hab (h.1 a ha)
+    · exact ih h.2 ha hb
+
+theorem nodup_map_fst_of_subset {l G : List (Nat × Tok)} (hl : l.Nodup) (hsub : ∀ a ∈ l, a ∈ G)
+    (hG : (G.map (·.1)).Nodup) : (l.map (·.1)).Nodup := by
+  induction l with
+  | nil => simp
+  | cons a l ih =>
+    obtain ⟨ha, hl'⟩ := List.nodup_cons.mp hl
+    simp only [List.map_cons, List.nodup_cons, List.mem_map, not_exists, not_and]
+    refine ⟨?_, ih hl' (fun b hb => hsub b (by simp [hb]))⟩
+    intro b hb hba
+    have := fst_inj_of_nodup hG (hsub b (by simp [hb])) (hsub a (by simp)) hba
+    exact ha (this ▸ hb)
+
+theorem resOfKey_mem (b : Block) (k : Nat) (r : Nat × Tok) (h : resOfKey b k = some r) :
+    r ∈ residues b := by
+  unfold resOfKey at h
+  cases hf : b.atoms.find? (fun a => a.key == k) with
+  | none => simp [hf] at h
+  | some a =>
+    simp only [hf, Option.map_some, Option.some.injEq] at h
+    have := List.mem_of_find?_eq_some hf
+    unfold residues
+    rw [mem_firstOcc]
+    exact List.mem_map.mpr ⟨a, this, h⟩
+
+theorem posWhere_eq_of_mem {rs : List (Nat × Tok)} {r s : Nat × Tok} (hr : r ∈ rs)
+    (h : posWhere (fun x => x == r) rs = posWhere (fun x => x == s) rs) : r = s := by
+  induction rs with
+  | nil => cases hr
+  | cons c rs ih =>
+    simp only [posWhere, beq_iff_eq] at h
+    by_cases h1 : c = r <;> by_cases h2 : c = s
+    · exact h1.symm.trans h2
+    · rw [if_pos h1, if_neg h2] at h; omega
+    · rw [if_neg h1, if_pos h2] at h; omega
+    · simp only [h1, h2, ↓reduceIte, Nat.add_right_cancel_iff] at h
+      rcases List.mem_cons.mp hr with e | hr'
+      · exact absurd e.symm h1
+      · exact ih hr' h
+
+/-- **Residue graph of a block**: if the residues of the block are exactly the requested nodes (with
+distinct resids), every requested edge is realised by a bond/constraint edge between atoms of the two
+residues, and every bond/constraint edge between different residues joins requested neighbours, then
+`resid` is an isomorphism of the recovered residue graph onto the requested one. -/
+theorem resgraph_iso_of_block (b : Block) (G : ReqGraph)
+    (hGn : (G.nodes.map (·.1)).Nodup)
+    (hres : ∀ p, p ∈ b.atoms.map (fun a => (a.resid, a.resname)) ↔ p ∈ G.nodes)
+    (hloop : ∀ e ∈ G.edges, e.1 ≠ e.2)
+    (H1 : ∀ e ∈ G.edges, ∃ ae ∈ atomEdges b, ∃ r1 r2, resOfKey b ae.1 = some r1 ∧ resOfKey b ae.2 = some r2 ∧
+        ((r1.1 = e.1 ∧ r2.1 = e.2) ∨ (r1.1 = e.2 ∧ r2.1 = e.1)))
+    (H2 : ∀ ae ∈ atomEdges b, ∀ r1 r2, resOfKey b ae.1 = some r1 → resOfKey b ae.2 = some r2 → r1 ≠ r2 →
+        G.adj r1.1 r2.1) :
+    IsoByResid (resGraphOf b) G := by
+  have hrs_nd : (residues b).Nodup := firstOcc_nodup _
+  have hrs_mem : ∀ p, p ∈ residues b ↔ p ∈ G.nodes := by
+    intro p; unfold residues; rw [mem_firstOcc]; exact hres p
+  have hnodes : (resGraphOf b).nodes = nodesFrom 0 (residues b) := rfl
+  refine ⟨?_, ?_, ?_⟩
+  · intro p
+    rw [hnodes, nodesFrom_pairs]
+    exact hrs_mem p
+  · rw [hnodes, nodesFrom_resids]
+    exact nodup_map_fst_of_subset hrs_nd (fun a ha => (hrs_mem a).mp ha) hGn
+  · intro n₁ hn₁ n₂ hn₂
+    rw [hnodes] at hn₁ hn₂
+    obtain ⟨hm₁, hi₁⟩ := (mem_nodesFrom 0 _ hrs_nd n₁).mp hn₁
+    obtain ⟨hm₂, hi₂⟩ := (mem_nodesFrom 0 _ hrs_nd n₂).mp hn₂
+    simp only [Nat.zero_add] at hi₁ hi₂
+    -- membership in the recovered edge list
+    have hedge : ∀ i j, (i, j) ∈ (resGraphOf b).edges ↔
+        ∃ ae ∈ atomEdges b, ∃ r1 r2, resOfKey b ae.1 = some r1 ∧ resOfKey b ae.2 = some r2 ∧ r1 ≠ r2 ∧
+          i = posWhere (fun x => x == r1) (residues b) ∧ j = posWhere (fun x => x == r2) (residues b) := by
+      intro i j
+      show (i, j) ∈ (atomEdges b).filterMap _ ↔ _
+      rw [List.mem_filterMap]
+      constructor
+      · rintro ⟨ae, hae, h⟩
+        cases h1 : resOfKey b ae.1 with
+        | none => simp [h1] at h
+        | some r1 =>
+          cases h2 : resOfKey b ae.2 with
+          | none => simp [h1, h2] at h
+          | some r2 =>
+            simp only [h1, h2] at h
+            by_cases he : r1 = r2
+            · simp [he] at h
+            · simp only [he, ↓reduceIte, Option.some.injEq, Prod.mk.injEq] at h
+              exact ⟨ae, hae, r1, r2, h1, h2, he, h.1.symm, h.2.symm⟩
+      · rintro ⟨ae, hae, r1, r2, h1, h2, he, hi, hj⟩
+        exact ⟨ae, hae, by simp [h1, h2, he, hi, hj]⟩
+    -- one direction of adjacency, for an ordered pair of nodes
+    have key : ∀ (a c : RGNode), (a.resid, a.resname) ∈ residues b →
+        a.idx = posWhere (fun r => r == (a.resid, a.resname)) (residues b) →
+        (c.resid, c.resname) ∈ residues b →
+        c.idx = posWhere (fun r => r == (c.resid, c.resname)) (residues b) →
+        ((a.idx, c.idx) ∈ (resGraphOf b).edges → G.adj a.resid c.resid) ∧
+        ((a.resid, c.resid) ∈ G.edges → (resGraphOf b).adj a.idx c.idx) := by
+      intro a c hma hia hmc hic
+      constructor
+      · intro h
+        obtain ⟨ae, hae, r1, r2, h1, h2, he, hi, hj⟩ := (hedge _ _).mp h
+        have e1 : r1 = (a.resid, a.resname) :=
+          posWhere_eq_of_mem (resOfKey_mem b _ _ h1) (by rw [← hi, hia])
+        have e2 : r2 = (c.resid, c.resname) :=
+          posWhere_eq_of_mem (resOfKey_mem b _ _ h2) (by rw [← hj, hic])
+        have := H2 ae hae r1 r2 h1 h2 he
+        rw [e1, e2] at this
+        exact this
+      · intro h
+        obtain ⟨ae, hae, r1, r2, h1, h2, hor⟩ := H1 _ h
+        have hne := hloop _ h
+        simp only at hor hne
+        have m1 := (hrs_mem _).mp (resOfKey_mem b _ _ h1)
+        have m2 := (hrs_mem _).mp (resOfKey_mem b _ _ h2)
+        have ma := (hrs_mem _).mp hma
+        have mc := (hrs_mem _).mp hmc
+        rcases hor with ⟨ha, hc⟩ | ⟨hc, ha⟩
+        · have e1 : r1 = (a.resid, a.resname) := fst_inj_of_nodup hGn m1 ma ha
+          have e2 : r2 = (c.resid, c.resname) := fst_inj_of_nodup hGn m2 mc hc
+          have he : r1 ≠ r2 := fun e => hne (by rw [← ha, ← hc, e])
+          left
+          exact (hedge _ _).mpr ⟨ae, hae, r1, r2, h1, h2, he, by rw [hia, e1], by rw [hic, e2]⟩
+        · have e1 : r1 = (c.resid, c.resname) := fst_inj_of_nodup hGn m1 mc hc
+          have e2 : r2 = (a.resid, a.resname) := fst_inj_of_nodup hGn m2 ma ha
+          have he : r1 ≠ r2 := fun e => hne (by rw [← ha, ← hc, e])
+          right
+          exact (hedge _ _).mpr ⟨ae, hae, r1, r2, h1, h2, he, by rw [hic, e1], by rw [hia, e2]⟩
+    have k12 := key n₁ n₂ hm₁ hi₁ hm₂ hi₂
+    have k21 := key n₂ n₁ hm₂ hi₂ hm₁ hi₁
+    constructor
+    · rintro (h | h)
+      · exact k12.1 h
+      · rcases k21.1 h with h' | h'
+        · exact Or.inr h'
+        · exact Or.inl h'
+    · rintro (h | h)
+      · exact k12.2 h
+      · rcases k21.2 h with h' | h'
+        · exact Or.inr h'
+        · exact Or.inl h'
+
+theorem ixnsOf_map (names : List String) (g : String → List RIxn) (s : String) :
+    ixnsOfSecs (names.map (fun t => (t, g t))) s = if s ∈ names then g s else [] := by
+  induction names with
+  | nil => simp [ixnsOfSecs]
+  | cons t names ih =>
+    by_cases h : t = s
+    · subst h; simp [ixnsOfSecs]
+    · have h' : ¬ s = t := fun e => h e.symm
+      have hfind : ixnsOfSecs ((t, g t) :: names.map (fun t => (t, g t))) s
+          = ixnsOfSecs (names.map (fun t => (t, g t))) s := by
+        simp [ixnsOfSecs, h]
+      simp only [List.map_cons, hfind, ih, List.mem_cons, h', false_or]
+
+theorem ixnsOf_canonBlock (moltype : Tok) (m : Mol) (s : String) :
+    (canonBlock moltype m).ixnsOf s = canonIxns m s := by
+  have h0 : (canonBlock moltype m).ixnsOf s
+      = ixnsOfSecs ((canonSectionNames m).map (fun t => (t, canonIxns m t))) s := rfl
+  rw [h0, ixnsOf_map]
+  split
+  · rfl
+  · next hns =>
+    symm
+    unfold canonIxns
+    rw [List.flatMap_eq_nil_iff]
+    intro p hp
+    obtain ⟨hpm, hps⟩ := List.mem_filter.mp hp
+    have hps' : headerName p.1 = s := by simpa using hps
+    cases hl : p.2 with
+    | nil => rfl
+    | cons x l =>
+      exfalso
+      apply hns
+      unfold canonSectionNames
+      rw [mem_firstOcc]
+      exact List.mem_map.mpr ⟨p, List.mem_filter.mpr ⟨hpm, by simp [hl]⟩, hps'⟩
+
+/-- the recovered residue graph only depends on the atoms and on the bonds/constraints as multisets -/
+theorem resgraph_iso_transfer (b0 b : Block) (G : ReqGraph) (hat : b.atoms = b0.atoms)
+    (hix : ∀ s, (b.ixnsOf s).Perm (b0.ixnsOf s))
+    (hGn : (G.nodes.map (·.1)).Nodup)
+    (hres : ∀ p, p ∈ b0.atoms.map (fun a => (a.resid, a.resname)) ↔ p ∈ G.nodes)
+    (hloop : ∀ e ∈ G.edges, e.1 ≠ e.2)
+    (H1 : ∀ e ∈ G.edges, ∃ ae ∈ atomEdges b0, ∃ r1 r2, resOfKey b0 ae.1 = some r1 ∧ resOfKey b0 ae.2 = some r2 ∧
+        ((r1.1 = e.1 ∧ r2.1 = e.2) ∨ (r1.1 = e.2 ∧ r2.1 = e.1)))
+    (H2 : ∀ ae ∈ atomEdges b0, ∀ r1 r2, resOfKey b0 ae.1 = some r1 → resOfKey b0 ae.2 = some r2 → r1 ≠ r2 →
+        G.adj r1.1 r2.1) :
+    IsoByResid (resGraphOf b) G := by
+  have hedges : ∀ ae, ae ∈ atomEdges b ↔ ae ∈ atomEdges b0 := by
+    intro ae
+    unfold atomEdges
+    exact (((hix "bonds").append (hix "constraints")).flatMap_right _).mem_iff
+  have hkey : ∀ k, resOfKey b k = resOfKey b0 k := by
+    intro k; unfold resOfKey; rw [hat]
+  apply resgraph_iso_of_block b G hGn (by rw [hat]; exact hres) hloop
+  · intro e he
+    obtain ⟨ae, hae, r1, r2, h1, h2, hor⟩ := H1 e he
+    exact ⟨ae, (hedges ae).mpr hae, r1, r2, by rw [hkey]; exact h1, by rw [hkey]; exact h2, hor⟩
+  · intro ae hae r1 r2 h1 h2 hne
+    exact H2 ae ((hedges ae).mp hae) r1 r2 (by rw [← hkey]; exact h1) (by rw [← hkey]; exact h2) hne
+
+theorem wfB_sound (m : Mol) (h : wfB m = true) : WF m := by
+  unfold wfB at h
+  simp only [Bool.and_eq_true, Bool.not_eq_true', decide_eq_true_eq, List.all_eq_true] at h
+  obtain ⟨⟨⟨⟨h1, h2⟩, h3⟩, h4⟩, h5⟩ := h
+  refine ⟨?_, h2, h3, h4, ?_, ?_, ?_⟩
+  · intro he; simp [he] at h1
+  · intro s hs x hx k hk; exact ((h5 s hs x hx).1.1) k hk
+  · intro s hs x hx hboth
+    have := (h5 s hs x hx).1.2
+    simp [hboth.1, hboth.2] at this
+  · intro s hs x hx; exact (h5 s hs x hx).2
 
 end PolyplyVerif.Proofs.ItpIO
